@@ -14,7 +14,8 @@ from ..model import call_many
 from ..pool import guarded, run_cases
 
 THEOREMS = ["C07_cst_untouched", "C07_nothing_replaced_is_identity", "C07_one_node_replaced", "C07_header_reprint_shape",
-            "C07_header_reprint_refuted", "C07_checker_sound", "C07_failure_atomic", "C07_order_nonvacuous"]
+            "C07_header_reprint_refuted", "C07_return_removed_shape", "C07_return_added", "C07_return_examples", "C07_checker_sound",
+            "C07_failure_atomic", "C07_order_nonvacuous"]
 FN_NAMES = ["compute", "render", "fetch", "cache", "route", "handler", "store", "merge"]
 CLS_NAMES = ["Alpha", "Beta", "Gamma"]
 PARAMS = ["alpha", "beta", "gamma", "delta", "epsilon"]
@@ -638,6 +639,20 @@ def header_cases(c):
             continue
         out.append({"value": value, "new_args": [[a.arg, ast.unparse(a.annotation) if a.annotation else None] for a in new.args.args],
                     "impl": got, "changed": got != value})
+        # the return-type edit on the same header
+        from cdd.shared.ast_cst_utils import maybe_replace_function_return_type
+        new2 = copy.deepcopy(cur)
+        cur_rt = ast.unparse(cur.returns) if cur.returns is not None else None
+        new_rt = None if (cur_rt is not None and (i + len(src)) % 2 == 0) else ("bool" if cur_rt != "bool" else "Dict[str, int]")
+        new2.returns = ast.parse(new_rt, mode="eval").body if new_rt is not None else None
+        lst2 = list(cst)
+        try:
+            with contextlib.redirect_stdout(io.StringIO()):
+                maybe_replace_function_return_type(new_node=new2, cur_ast_node=cur, cst_idx=i, cst_list=lst2)
+            got2 = lst2[i].value
+        except Exception as e:  # noqa
+            got2 = "!" + type(e).__name__
+        out.append({"retype": True, "value": value, "cur": cur_rt, "new": new_rt, "impl": got2})
     return out
 
 
@@ -662,6 +677,17 @@ def worker(batch):
         st, hs = guarded(header_cases, c, 30)
         if st == "ok":
             hdrs += [(c, h) for h in hs]
+    rets = [(c, h) for c, h in hdrs if h.get("retype")]
+    hdrs = [(c, h) for c, h in hdrs if not h.get("retype")]
+    if rets:
+        ms = call_many("retype_header", [[h["value"], h["cur"], h["new"]] for _c, h in rets])
+        for (c, h), m in zip(rets, ms):
+            out["headers"] += 1
+            if h["impl"].startswith("!"):
+                continue
+            want = h["value"] if m is None else m
+            if want != h["impl"]:
+                out["corr"].append({"stage": "retype_header", "value": h["value"], "cur": h["cur"], "new": h["new"], "impl": h["impl"], "model": m})
     if hdrs:
         ms = call_many("header_reprint", [[h["value"], h["new_args"]] for _c, h in hdrs])
         for (c, h), m in zip(hdrs, ms):
